@@ -934,6 +934,14 @@ func (env *SpecEnv) callExpr(n *ast.CallExpr) (SpecVal, error) {
 			return SpecVal{}, fmt.Errorf("eqbytes: %v", err)
 		}
 		return env.eqBytes(args[0], env.st, args[1], env.st)
+	case "eqcontent":
+		// eqcontent(a, b): the content equality of the bytes.Equal model (see bytesEqualTerm), in the current state
+		args, err := evalArgs()
+		if err != nil || len(args) != 2 || args[0].T.Sort != SSlice || args[1].T.Sort != SSlice {
+			return SpecVal{}, fmt.Errorf("eqcontent needs two byte slices: %v", err)
+		}
+		t, _ := bytesEqualTerm(e, env.st, args[0].T, args[1].T)
+		return SpecVal{T: t, Typ: boolT}, nil
 	case "eqold":
 		args, err := evalArgs()
 		if err != nil || len(args) != 2 {
